@@ -63,6 +63,12 @@ func c11run(r *kernel.Run) {
 	for i := range groups {
 		groups[i], _, _ = protocoltypes.NewGroupMultiMember()
 	}
+	if r.Pick("colliding_group_pk", 3) == 2 {
+		// unusual input: a multi-member group whose identifier equals the account key of one of the parties
+		g0, _, _ := stores[0].p.st.GetGroupForAccount()
+		groups[1] = &protocoltypes.Group{PublicKey: g0.PublicKey, Secret: groups[1].Secret, SecretSig: groups[1].SecretSig, GroupType: protocoltypes.GroupType_GroupTypeMultiMember}
+		r.Fault("group_pk_equals_account_pk")
+	}
 	r.Logf("accounts=%d", naccounts)
 	accPub := func(s *c11store) crypto.PubKey { pk, _ := s.p.accountPub(); return pk }
 	nsteps := r.Int("steps", 3, 25)
@@ -230,9 +236,15 @@ func c11run(r *kernel.Run) {
 				continue
 			}
 			sk, proof, _ := o.p.st.ExportAccountKeysForBackup()
-			bad := r.Pick("malformed", 5)
+			bad := r.Pick("malformed", 6)
 			var a1, a2 []byte
 			switch bad {
+			case 5: // well-formed keys, but the store is partially used: it only ever derived a member key (proof key exists)
+				if _, err := p.st.GetOwnMemberDeviceForGroup(groups[0]); err != nil {
+					r.Infra("member device: %v", err)
+					return
+				}
+				a1, a2 = sk, proof
 			case 0: // the two keys equal
 				a1, a2 = sk, sk
 			case 1: // non-Ed25519 key
@@ -255,6 +267,10 @@ func c11run(r *kernel.Run) {
 				r.Violate("import", "refused-import-changed-store", "a refused ImportAccountKeys (case %d) modified the store", bad)
 				return
 			}
+			if bad == 5 {
+				r.Fault("import_refused_partially_used_store")
+				break // that store keeps its own (partial) identity; it is not added to the population
+			}
 			if err := p.st.ImportAccountKeys(sk, proof); err != nil {
 				r.Violate("import", "import-into-fresh-store-refused", "a valid import after a refused one failed: %v", err)
 				return
@@ -271,7 +287,8 @@ func c11run(r *kernel.Run) {
 			r.Logf("restart %s", s.p.name)
 		case a == 7: // the recomputable key cache is lost (contact-group and member keys are derived, not stored secrets)
 			nk := s.p.disk.DropKeys(func(k string) bool {
-				return strings.Contains(k, "/"+keyContactGroup+"_") || strings.Contains(k, "/"+keyMember+"_")
+				// names of the recomputable cache entries as literals: the harness must not depend on identifiers of the code under test
+				return strings.Contains(k, "/contactGroupSK_") || strings.Contains(k, "/memberSK_")
 			})
 			if nk > 0 {
 				r.Fault("key_cache_loss")
